@@ -47,7 +47,7 @@ inductive Op where
 
 /-- The calls for which `Props/C04` proves preservation of the whole invariant. -/
 def Op.core : Op → Bool
-  | .replace _ _ | .cloneNode _ => false
+  | .replace _ _ => false
   | _ => true
 
 namespace Forest
